@@ -268,13 +268,13 @@ def run(tier, seed):
     rep.extra["inprocess_exhaustive"] = True
     rng = common.rng_for(seed, "C20")
     cases = []
-    for _ in range(2500 if thorough else 240):
+    for _ in range(2500 if thorough else 420):
         pop = gen_population(rng)
         name, isd = rng.choice(pop)
         cases.append({"pop": pop, "name": name, "is_dir": isd, "ctx": rng.choice(["unq", "dq", "sq"]),
                       "extra": rng.choice([0, 0, 1, 2, 3, 5])})
     # after `cd`: only directories are candidates, so a file that shares the typed prefix must not get in the way
-    for _ in range(1200 if thorough else 120):
+    for _ in range(1200 if thorough else 200):
         pop = [(n, d) for n, d in gen_population(rng)]
         dname = "".join(rng.choice(ALPHA) for _ in range(rng.choice([2, 3, 4])))
         if rng.random() < 0.5:
@@ -288,7 +288,7 @@ def run(tier, seed):
             pop.append((pre + "_f", False))          # a plain file sharing the prefix
         cases.append({"pop": sorted(pop), "name": dname, "is_dir": True, "ctx": rng.choice(["unq", "unq", "dq", "sq"]),
                       "extra": 0, "cd": True})
-    for _ in range(1500 if thorough else 160):
+    for _ in range(1500 if thorough else 260):
         pop = gen_population(rng)
         name, isd = rng.choice(pop)
         sub = None
